@@ -2,6 +2,7 @@ import SimVerif.Driver.Common
 import SimVerif.Model.Tracker
 import SimVerif.Model.BatchProtocol
 import SimVerif.Model.Constraints
+import SimVerif.Model.VisualMetric
 namespace SimVerif.Driver.TrkD
 open SimVerif.Wire SimVerif.Tracker SimVerif.Driver
 
@@ -294,8 +295,7 @@ implementation is justified, flags). -/
 def visGate (st : St) (vecs : List (Nat × List Rat)) (sc e : Nat) (ds : List Det) (gsec : List (Rat × Option Rat))
     (tbl : List (Nat × Nat × Option Rat × Option Rat)) : Bool × Bool × List String :=
   let useOk : List Bool := (ds.zip gsec).map (fun (d, (area, share)) =>
-    decide (st.minArea ≤ area) && decide (st.qUse ≤ d.quality) &&
-    (match share with | some p => decide (st.ownUse ≤ p) | none => true))
+    VisualMetric.featureCanBeUsed st.minArea area d.quality st.qUse share st.ownUse)
   let tracks := st.st.live.filter (fun t => t.scene == sc && decide (e - t.lastUpd ≤ st.cfg.maxIdle))
   let vec (tok : Nat) : Option (List Rat) := (vecs.find? (fun p => p.1 == tok)).map (·.2)
   let rows : List (Nat × Nat × Nat × Nat × Bool × Bool × List Rat × List Rat) :=
